@@ -450,8 +450,11 @@ func checkAlign(r *core.Run, info *types.Info, fd *ast.FuncDecl) {
 			}
 		}
 	}
+	if v == "" && into != "" && checkFillBytes(r, info, fd, into) {
+		return
+	}
 	if v == "" || into == "" {
-		r.Fatal("parseBase62: cannot identify `v := <big.Int>.Bytes()` and the []byte destination parameter")
+		r.Fatal("parseBase62: cannot identify `v := <big.Int>.Bytes()` (or a guarded FillBytes) and the []byte destination parameter")
 		return
 	}
 	type state struct {
@@ -666,4 +669,100 @@ func checkPure(r *core.Run, rel, name string) {
 	}
 	visit(rel, name)
 	r.Floor("R-PURE", 3, "sha1.New, Write, Sum")
+}
+
+// checkFillBytes handles the alternative idiom `i.FillBytes(into)`: FillBytes
+// right-aligns and zero-fills (library fact) but panics when the value needs
+// more than len(into) bytes, so it must be preceded, at the top level of the
+// function, by an error return under a condition that is implied by "needs
+// more than len(into) bytes". Returns false when the idiom is absent.
+func checkFillBytes(r *core.Run, info *types.Info, fd *ast.FuncDecl, into string) bool {
+	found := false
+	guarded := false
+	why := "no preceding size guard"
+	sufficient := func(cond ast.Expr) (bool, string) {
+		b, ok := core.Unparen(cond).(*ast.BinaryExpr)
+		if !ok || b.Op != token.GTR {
+			return false, "guard is not of the form <size> > <capacity>"
+		}
+		lhs, rhs := core.Unparen(b.X), core.Unparen(b.Y)
+		isBitLen := func(e ast.Expr) bool {
+			c, ok := core.Unparen(e).(*ast.CallExpr)
+			return ok && core.CalleeName(info, c) == "(*math/big.Int).BitLen"
+		}
+		// len(i.Bytes()) > len(into)
+		if c, ok := lhs.(*ast.CallExpr); ok && core.CalleeName(info, c) == "builtin.len" && len(c.Args) == 1 {
+			if c2, ok := core.Unparen(c.Args[0]).(*ast.CallExpr); ok && core.CalleeName(info, c2) == "(*math/big.Int).Bytes" && core.IsLenOf(info, rhs, into) {
+				return true, ""
+			}
+		}
+		// (i.BitLen()+7)/8 > len(into)
+		if d, ok := lhs.(*ast.BinaryExpr); ok && d.Op == token.QUO && core.IsLenOf(info, rhs, into) {
+			if k, ok := core.ConstInt(info, d.Y); ok && k == 8 {
+				if a, ok := core.Unparen(d.X).(*ast.BinaryExpr); ok && a.Op == token.ADD && isBitLen(a.X) {
+					if k7, ok := core.ConstInt(info, a.Y); ok && k7 == 7 {
+						return true, ""
+					}
+				}
+				if isBitLen(d.X) {
+					return false, "BitLen()/8 rounds down: values with 8*len+1 .. 8*len+7 bits pass the guard and FillBytes panics"
+				}
+			}
+		}
+		// i.BitLen() > len(into)*8
+		if isBitLen(lhs) {
+			if m, ok := rhs.(*ast.BinaryExpr); ok && m.Op == token.MUL {
+				if k, ok := core.ConstInt(info, m.Y); ok && k == 8 && core.IsLenOf(info, m.X, into) {
+					return true, ""
+				}
+				if k, ok := core.ConstInt(info, m.X); ok && k == 8 && core.IsLenOf(info, m.Y, into) {
+					return true, ""
+				}
+			}
+		}
+		return false, "unrecognised size guard"
+	}
+	var fillPos token.Pos
+	for _, st := range fd.Body.List {
+		switch x := st.(type) {
+		case *ast.IfStmt:
+			if x.Else == nil && len(x.Body.List) > 0 {
+				if ret, ok := x.Body.List[len(x.Body.List)-1].(*ast.ReturnStmt); ok && len(ret.Results) == 1 && !core.IsNilIdent(info, ret.Results[0]) {
+					if ok, w := sufficient(x.Cond); ok {
+						guarded = true
+					} else if w != "" && !strings.Contains(core.ExprStr(x.Cond), "ok") {
+						why = w
+					}
+				}
+			}
+		case *ast.ExprStmt:
+			if c, ok := x.X.(*ast.CallExpr); ok && core.CalleeName(info, c) == "(*math/big.Int).FillBytes" {
+				found = true
+				fillPos = c.Pos()
+				o := r.Add("R-FLOW/align", "id62.parseBase62 | FillBytes", c.Pos(), "FillBytes("+core.ExprStr(c.Args[0])+")")
+				id, isId := core.Unparen(c.Args[0]).(*ast.Ident)
+				switch {
+				case !isId || id.Name != into:
+					o.Fail("destination is not the whole %s slice", into)
+				case !guarded:
+					o.Fail("FillBytes panics when the value does not fit and the preceding guard does not exclude that: %s", why)
+				default:
+					o.Auto("right-aligned by FillBytes; an error return under a sufficient size guard precedes it")
+				}
+			}
+		}
+	}
+	_ = fillPos
+	if found {
+		// the success return must come after FillBytes at top level
+		last, ok := fd.Body.List[len(fd.Body.List)-1].(*ast.ReturnStmt)
+		o := r.Add("R-FLOW/align", "id62.parseBase62 | final return", fd.Body.Rbrace, "final return")
+		if ok && len(last.Results) == 1 && core.IsNilIdent(info, last.Results[0]) {
+			o.Auto("success only after FillBytes")
+		} else {
+			o.Fail("unrecognised function tail")
+		}
+		r.Floor("R-FLOW/align", 2, "FillBytes idiom")
+	}
+	return found
 }
